@@ -2,7 +2,7 @@
 from ..core import Report
 from . import common as cm
 
-ACTIONS = ["Declare", "Constrain", "Compare"]
+ACTIONS = ["Declare", "Constrain", "SetUp", "Compare"]
 INVARIANTS = ["SidesDenoteTheSameProblem", "Symmetric"]
 DATA = ["pos", "mixed", "neg"]
 
@@ -12,10 +12,10 @@ def constants(data, depth, off=(), faults=()):
 
 
 def run(tier, seed, faults=()):
-    from ..adapters.forms import replay_indexed, replay_xy
+    from ..adapters.forms import replay_hist, replay_indexed, replay_unbinned, replay_xy
     rep = Report("C14", tier, seed, "model_checking")
     for data in DATA:
-        if not cm.run_mc_stage(rep, "Forms", cm.mc_cfg(constants(data, 4 if (data == "mixed" or tier != "quick") else 3, faults=faults), INVARIANTS), ACTIONS, label="forms, %s data" % data):
+        if not cm.run_mc_stage(rep, "Forms", cm.mc_cfg(constants(data, (3 if data == "mixed" else 2) if tier == "quick" else 4, faults=faults), INVARIANTS), ACTIONS, label="forms, %s data" % data):
             return rep
     for data in DATA:
         cm.run_replay_stage(rep, "GenForms", cm.gen_cfg(constants(data, 2, faults=faults)), replay_xy, "xy, %s data: all histories, 2 steps" % data,
@@ -24,6 +24,10 @@ def run(tier, seed, faults=()):
                             max_histories=800 if tier == "quick" else None, seed=seed + 1, chunk=20)
         cm.run_replay_stage(rep, "GenForms", cm.gen_cfg(constants(data, 5, faults=faults)), replay_xy, "xy, %s data: simulate" % data,
                             simulate=(60 if tier == "quick" else 800, 5, seed + 2), max_histories=400 if tier == "quick" else 6000, seed=seed, chunk=10)
+    # histogram and unbinned fits: constraints and the set-up of the parameters through class / wrapper / YAML (no uncertainty sources)
+    for fn, label in ((replay_hist, "hist"), (replay_unbinned, "unbinned")):
+        cm.run_replay_stage(rep, "GenForms", cm.gen_cfg(constants("pos", 3, off=["Declare"], faults=faults)), fn, "%s: constraints and set-up, all histories, 3 steps" % label,
+                            max_histories=500 if tier == "quick" else None, seed=seed + 3, chunk=10)
     rep.assumptions += ["three data points (all positive / mixed signs / all negative), sources of size 0.2, 0.5 and 10 %, 20 % with correlation 0, 1/2, 1; "
                         "every form is compared with the explicit absolute covariance matrix (canonical form) and with the spec's integer normal form",
                         "wrapper / YAML / model-string families: equivalence is established by building two real fits (exploration level); "
